@@ -97,4 +97,8 @@ FIXED_BY_SUBJECT = {
    ('C19', 'slice assignment with a replacement of different length overwrote following members; s[i:i]=... leaked IndexError')],
  "fix: a constrained type did not recognise types derived from it": [
    ('C14', 'parent.isSuperTypeOf(child) was False for any constrained parent; child values could not be assigned to parent-typed components')],
+ "fix: prettyPrintType() of a SEQUENCE/SET schema without declared components": [
+   ('C12', 'decoding a type containing a field-less SEQUENCE/SET failed only while debug logging was on')],
+ "fix: encoding a Python value with asn1Spec modified the schema object": [
+   ('C12', 'encode(mapping, asn1Spec=CHOICE schema) selected the alternative on the schema object itself')],
 }
